@@ -187,6 +187,39 @@ def r2c_nan_skipping_folds(rule, root=None):
         rule.lost("Interval::new sites in interval.rs (found %d)" % n)
 
 
+def r_interval_wellformed(rule, root=None):
+    """`Interval::new` is the one place that builds an interval from two bounds (it asserts lower <= upper or both NaN,
+    and every call site is decided by R2); a struct literal elsewhere skips both.  And `has_nan` - what every operation
+    uses to decide "this operand is the NaN interval" - looks at both bounds: the ways a half-NaN interval can arise
+    (native code, sums of infinities) are exactly the cases it has to catch."""
+    d = A.load(IV, root)
+    n = 0
+    for f in d["_fns"]:
+        if f["_test"] or f.get("body") is None:
+            continue
+        ow = f.get("_owner") or {}
+        if ow.get("self_ty") != "Interval":
+            continue
+        for st in A.find(f["body"], "Struct"):
+            nm = (A.path_segs(st.get("path")) or [None])[-1]
+            if nm not in ("Interval", "Self"):
+                continue
+            n += 1
+            lab = A.fn_label(f)
+            if f["name"] == "new" and not ow.get("trait"):
+                rule.ok("Interval::new builds the struct (behind its assertion)", file=IV, line=st["ln"])
+            else:
+                rule.bad("literal|%s" % lab, "%s builds `%s` directly: the bounds skip Interval::new's well-formedness assertion and the NaN-asymmetry analysis of its call sites" % (lab, A.unparse(st)[:60]), A.where(IV, st))
+    if n == 0:
+        rule.lost("the struct literal inside Interval::new")
+    hn = A.find_fn(IV, "has_nan", self_ty="Interval", root=root)
+    t = str(A.ftxt(hn["body"])).strip("{}")
+    if t in ("(self.lower.is_nan()||self.upper.is_nan())", "(self.upper.is_nan()||self.lower.is_nan())", "self.lower.is_nan()||self.upper.is_nan()", "!(self.lower==self.lower&&self.upper==self.upper)"):
+        rule.ok("Interval::has_nan looks at both bounds", file=IV, line=hn["ln"])
+    else:
+        rule.bad("has_nan", "Interval::has_nan is `%s`; it must hold when *either* bound is NaN (a half-NaN interval is what it exists to catch)" % t[:70], A.where(IV, hn))
+
+
 def run(ctx):
     r = ctx.rule("R1", "all eight evaluators check their arguments first and return the error; the checks cover every supplied slice", 12)
     ctx.guarded(r, r1_checks_dominate)
@@ -260,3 +293,5 @@ def run(ctx):
     r = ctx.rule("R2j", "native interval add / sub: a result with one NaN bound (infinities of opposite sign) becomes the NaN interval before anything else sees it (NaN-lane abstraction of the x86_64 and aarch64 clauses)", 2 + 3)
     for arch in ("x86_64", "aarch64"):
         ctx.guarded(r, NS.check_nan_spread, arch)
+    r = ctx.rule("R2k", "intervals are built from two bounds only in Interval::new; has_nan looks at both bounds", 2)
+    ctx.guarded(r, r_interval_wellformed)
